@@ -1,8 +1,8 @@
 CONFIG = dict(
     bin="c18",
     drv="drv_c18",
-    lean_modules=["MahfModel.Props.C18"],
-    namespaces=["MahfModel.Props.C18"],
+    lean_modules=["MahfModel.Props.C18", "MahfModel.Props.C18Loop"],
+    namespaces=["MahfModel.Props.C18", "MahfModel.Props.C18Loop"],
     shrink_lists=["steps"],
     shrink=False,
     level="proof",
@@ -10,8 +10,10 @@ CONFIG = dict(
           "stored weight in {0, .4, .9, 1, 1.5} different from the component's own weight field, c1/c2 in {0..4}, velocities "
           "up to 3 v_max, partly unevaluated particles) with a scripted generator (words incl. 0, 2^63, 2^64-1); the draws are "
           "read back from the consumed words (word -> (w>>11)*2^-53 re-checked) and the model recomputes every coordinate "
-          "(K: relative tolerance 1e-9, either assignment of the two consumed draws to the cognitive / social term, any "
-          "association of the sum; O: |v'| <= v_max, x' = x + v' to one rounding, and v' = clamp(w_stored*v) wherever both "
+          "(K: relative tolerance 1e-9; the consumed draws are a WITNESS - the new velocities of a particle must be the "
+          "formula under SOME one-to-one assignment of the 2*dim draws that particle consumed to its 2*dim coefficient slots "
+          "(depth-first search, most constrained coordinate first), so the order in which a particle's coefficients are "
+          "drawn is free, as is the association of the sum; exactly two draws per coordinate, particles one after the other; O: |v'| <= v_max, x' = x + v' to one rounding, and v' = clamp(w_stored*v) wherever both "
           "attraction terms vanish - a quarter of the cases has c1 = c2 = 0, a quarter has every particle on its personal and "
           "the global best, stored weights up to 1.5); "
           "(2) vel-malformed: size mismatches between particles / velocities / personal bests, missing global best, "
@@ -24,15 +26,44 @@ CONFIG = dict(
           "candidate) / = the harness's own per-particle best raw objective / not stale, global best = min personal best "
           "and a member; run-vel: EVERY velocity update of those runs re-emitted as a prepared `vel` case with the exact "
           "words consumed, so the model re-derives it; plus real_pso built directly with parameters outside the template table "
-          "(inertia 1.4 -> 0.4 with c1 = c2 = 0, 1.2 -> 0.4, increasing 0.4 -> 0.9, constant 0.729, single particle). Non-trivial = not a malformed case; distinct = distinct input line."),
+          "(inertia 1.4 -> 0.4 with c1 = c2 = 0, 1.2 -> 0.4, increasing 0.4 -> 0.9, constant 0.729, single particle). "
+          "The global-best invariant of runs is evaluated at the pass boundaries (before and after every loop pass), so the "
+          "order of the two best updates inside the update block does not matter. "
+          "(8) runx / runx-vel: real_pso (or, without inertia-weight update, the public pso::pso template) under COMPOSITE "
+          "termination conditions - 14 fixed formulas (evaluations(k) | iterations(n) in both orders, &, !!, And::new / "
+          "Or::new with three operands, an iteration bound repeated inside a nested formula, iterations(0)) and seeded "
+          "random formulas of depth <= 3 over one iteration bound and random evaluation budgets - optionally as the last "
+          "phase of a hybrid (RandomSpread(20..300), evaluate, update_best_individual, optionally ClearPopulation, so that "
+          "common::BestIndividual holds a solution no particle was evaluated at), with 1..6 particles; observed per pass: "
+          "Iterations, Evaluations, Progress<Iterations>, Progress<Evaluations> at the pass boundary and the stored weight "
+          "every velocity update reads. K: the condition model (every operand of & and | evaluated, LessThanN stores "
+          "value/n) fed with the observed counters answers true before every pass and false at the exit and leaves the "
+          "observed Progress values; passes are numbered 0,1,2,..; the weight read in pass j is wAt j (start, then the "
+          "interpolation at (j-1)/n; start throughout without inertia update); the run ends Ok. O: all step clauses of (7) "
+          "plus the weight chain - each velocity update read exactly the weight the latest inertia update stored. "
+          "(9) gbest-hybrid / swarm-hybrid: the global-best update and the update block on states that also hold a "
+          "common::BestIndividual (absent / empty / better than every particle / arbitrary). "
+          "(10) swarminit / swarminit-stale: the ParticleSwarmInit block (init + execute) on a fresh state and on a state "
+          "that still holds the BestParticle of an earlier swarm (worse: replaced; at least as good: it stays - KNOWN "
+          "FINDING). (11) *-id: velocity update / init, personal-best init / update and global-best update under identifier "
+          "A next to decoy Global swarm state of other sizes, which must be neither read nor written (status 'leak'). "
+          "Objective values of the best-memory cases include +inf. "
+          "Non-trivial = not a malformed case; distinct = distinct input line."),
     nontrivial=lambda inp: not inp.startswith("(velinit") and "(gbest none)" not in inp,
     trusted_base=[
         "rand 0.8.8: gen::<f64>() = (next_u64() >> 11) * 2^-53 (re-checked against the consumed words on every vel case); "
         "gen_range for the initial velocities is witnessed (legality checked), not modelled",
         "f64::clamp(lo, hi) = if v < lo {lo} else if v > hi {hi} else {v}",
-        "individuals are (position, objective, evaluated flag); RefCell borrows are not modelled (C02)"],
+        "individuals are (position, objective, evaluated flag); RefCell borrows are not modelled (C02)",
+        "the loop model takes Loop::execute (init the condition, then while evaluate { body; Iterations += 1 }), the body "
+        "order of heuristics::pso::pso and the u32 -> f64 conversion of LessThanN from reading the source; the harness "
+        "observes the counters and Progress states at the pass boundaries only (not between the operands of a formula)"],
     assumptions=["theorems are in exact (ordered-field) arithmetic and quantify over all draws; the implementation is compared "
-                 "with the compiled model up to 1e-9 relative (draw assignment and association order of the velocity sum are not part of the property); transported data exactly"],
+                 "with the compiled model up to 1e-9 relative (which consumed draw feeds which coefficient of a particle and the association order of the velocity sum are not part of the property); transported data exactly",
+                 "loop-level theorems assume a non-empty evaluated swarm of one dimension d, legal initial velocities, a "
+                 "dimension-preserving boundary repair, an iteration bound in the termination formula when there is an "
+                 "inertia-weight update, and NO global best in the state before ParticleSwarmInit (the stale-global-best case "
+                 "is the recorded finding); objective function, draws, BestIndividual content and formula are arbitrary"],
     timeout_quick=600,
 )
 CONFIG.update(
@@ -42,11 +73,31 @@ CONFIG.update(
                 "(end-start)*progress+start (progress = iterations/n) and nothing else; personal bests never get worse and, by "
                 "induction over any history of evaluated populations, equal the best position the particle was evaluated at; "
                 "'global best is a minimal personal best' holds after the initialisation and is preserved by every update block; "
-                "the three collections keep one entry per particle and a mismatch is Err. Tied to /repo at component level "
-                "(K exact) and on every step of real_pso runs (O + exact re-derivation of every velocity update)."),
+                "the three collections keep one entry per particle and a mismatch is Err. Loop level (Props/C18Loop.lean, model "
+                "Model/PsoLoop.lean): evaluating ANY termination formula over iteration / evaluation bounds, !, &, | stores "
+                "iterations/n for the iteration bound evaluated last, wherever it stands (cond_progress); for whole runs of the "
+                "pso template with any formula, objective, draws, BestIndividual content, with or without inertia update "
+                "(run_keeps_swarm_consistent): no Err / panic, one entry per particle, velocities clamped, global best = a minimal "
+                "personal best after every pass, every velocity update scaled the old velocity with the weight of the schedule "
+                "wAt (weight_schedule: start weight, then the interpolation at the previous pass's progress), personal bests = "
+                "the initial population folded over the evaluated populations, hence the best evaluated position of each "
+                "particle (run_pbest_best_visited); the driver's global-best oracle is the invariant (gbest_oracle_sound). "
+                "Tied to /repo at component level (K exact, also under a non-Global identifier with decoy state) and on every "
+                "step of real_pso / pso runs under plain and composite termination conditions, stand-alone and as the last phase "
+                "of a hybrid (O + exact re-derivation of every velocity update + condition model on the observed counters)."),
     level_note=("Trusted: Lean kernel; harness + driver; rand's word->f64 mapping. Rounding is outside the theorems (partial: "
                 "rounding; x' = x + v' is checked to one rounding, the formula to 1e-9 relative). Between ParticleVelocitiesInit "
                 "and PersonalBestParticlesInit (inside the init block) the personal-best list is still empty; sizes are checked "
                 "from the end of the initialisation on. Dimension mismatches panic (index out of bounds) and are only compared "
-                "by status."),
+                "by status. KNOWN FINDING (swarminit-stale): ParticleSwarmInit on a state that still holds an at-least-as-good "
+                "BestParticle of an earlier swarm keeps it (GlobalBestParticleUpdate::init only inserts when absent), so the "
+                "global best is not a personal best of the new swarm - counterexample swarmInit_stale_gbest_violates, what "
+                "holds: swarmInit_establishes_invariant_partial. Observed, outside the property text: "
+                "ParticleSwarmInit::<I>::new_with_id and ParticleSwarmUpdate::<I>::new_with_id ignore I and build the Global "
+                "components (a pso::<P, I> assembled from the _with_id constructors fails `require`), so the two blocks are "
+                "exercised under Global only. Which Progress value survives when a formula contains iteration bounds with "
+                "DIFFERENT n (the last evaluated one, by the model) is not exercised; what Progress holds after the loop has "
+                "ended is not checked. The loop model's pass body is not re-executed against the code as a whole (no objective "
+                "/ boundary model in the driver); its parts are: velocity update exactly, condition and weight schedule per "
+                "pass, best updates per step."),
 )
